@@ -18,7 +18,7 @@ if $S/root/bin/vcheck needs-race $ID >/dev/null 2>&1; then
 fi
 cp properties.jsonl known_findings.txt $S/root/ 2>/dev/null
 VERIF_ROOT=$S/root timeout 7000 $S/root/bin/vcheck run $ID $TIER > $S/out.txt 2>&1; rc=$?
-if [ $rc -eq 1 ]; then echo "CAUGHT $ID $(basename $(dirname $PATCH)) [$TIER]: $(grep -c '^VIOLATION' $S/out.txt) keys; first: $(grep -A1 '^VIOLATION' $S/out.txt | sed -n 2p | cut -c1-160)";
+if [ $rc -eq 1 ]; then echo "CAUGHT $ID $(basename $(dirname $PATCH)) [$TIER]: $(grep -a -c "^VIOLATION" $S/out.txt) keys; first: $(grep -a -A1 "^VIOLATION" $S/out.txt | sed -n 2p | cut -c1-160)";
 elif [ $rc -eq 0 ]; then echo "MISSED $ID $(basename $(dirname $PATCH)) [$TIER] ($(tail -1 $S/out.txt))";
 else echo "RC=$rc $ID $(basename $(dirname $PATCH)) [$TIER]: $(tail -3 $S/out.txt | tr '\n' ' ' | cut -c1-300)"; fi
 rm -rf $S
